@@ -38,9 +38,10 @@ def install():
     import pyvolutionary.multitask as multitask
 
     import warnings
-    warnings.simplefilter("ignore")          # numpy RuntimeWarnings of the library under test are not our output
-    import numpy as _np
-    _np.seterr(all="ignore")
+    # numpy RuntimeWarnings of the library under test are not our output: they are *filtered* ("ignore"), not switched
+    # off at the source - NumPy keeps its default error state, so the warnings machinery (a process-global, not
+    # thread-safe list of filters) is exercised exactly as in a user's program
+    warnings.simplefilter("ignore")
     rng.install()
     helpers.parallel = pools.NAMESPACE
     hypertuner.parallel = pools.NAMESPACE
